@@ -196,7 +196,7 @@ def run_api(w, data):
 
     disk = make_disk(w, data)
     exc = None
-    with seams.Installed(disk), warnings.catch_warnings():
+    with seams.Installed(disk), seams.MemPoison(0), warnings.catch_warnings():
         warnings.simplefilter("ignore")
         try:
             if w.get("many"):
@@ -221,7 +221,7 @@ def run_main(w, data):
     out = io.StringIO()
     sys.argv = _argv(w)
     try:
-        with seams.Installed(disk), warnings.catch_warnings(), redirect_stderr(err), redirect_stdout(out):
+        with seams.Installed(disk), seams.MemPoison(w.get("mem")), warnings.catch_warnings(), redirect_stderr(err), redirect_stdout(out):
             warnings.simplefilter("ignore")
             try:
                 main()
@@ -245,7 +245,7 @@ def run_subprocess(w, data):
         if w.get("target_pre"):
             files[w["output_name"]] = base64.b64encode(PRE).decode()
         plan = {"verif": common.VERIF, "files": files, "plans": {w["output_name"]: w.get("output_faults") or []},
-                "knobs": w.get("knobs", {}), "result": os.path.join(tmp, "result.json"), "symlinks": w.get("symlinks") or {},
+                "knobs": {**w.get("knobs", {}), "mem": w.get("mem")}, "result": os.path.join(tmp, "result.json"), "symlinks": w.get("symlinks") or {},
                 "report": [w["output_name"], w["input_name"]]}
         with open(os.path.join(tmp, "plan.json"), "w") as fh:
             json.dump(plan, fh)
@@ -440,6 +440,8 @@ def run_task(task):
     # QCSchema files (set iteration, hash seed) and runs with a history
     w["subprocess"] = bool(task["subprocess"]) or ((w["input_file"].endswith(".json") or bool(w.get("prelude"))) and rng.random() < 0.3)
     w["hashseed"] = rng.choice([1, 7, 4242, 99991, 31337])
+    # content of uninitialised memory in the CLI runs (allocator seam; the API run sees zeros): own PRNG stream
+    w["mem"] = common.rng_for(task["seed"], ID, task["run"], "mem").choice([None, 1, 2, 3])
     data = input_bytes(w)
     api = run_api(w, data)
     viols = execute(w)
